@@ -2,7 +2,9 @@ package props
 
 import (
 	"fmt"
+	"os"
 	"sort"
+	"strconv"
 	"strings"
 	"time"
 
@@ -34,10 +36,10 @@ func init() {
 		return 40000, 45 * time.Second
 	}
 	register(&Engine{Prop: "C14", Name: "world-c14", Level: "exploration", Rule: rule, Real: real, Stubs: stubs, Assume: assume, Budget: budget,
-		Run:             func(t *sim.T, tier string) *sim.Violation { return runJournal(t, "C14") },
+		Run:             func(t *sim.T, tier string) *sim.Violation { return runJournal(t, "C14", tier) },
 		MandatoryProbes: []string{"front-shrink", "tail-change", "first-stop-missing", "repeat-stop", "empty-update", "vanish-and-reappear", "unassigned-after-assigned"}})
 	register(&Engine{Prop: "C15", Name: "world-c15", Level: "exploration", Rule: rule, Real: real, Stubs: stubs, Assume: assume, Budget: budget,
-		Run:             func(t *sim.T, tier string) *sim.Violation { return runJournal(t, "C15") },
+		Run:             func(t *sim.T, tier string) *sim.Violation { return runJournal(t, "C15", tier) },
 		MandatoryProbes: []string{"vanish-and-reappear", "unassigned-after-assigned", "window-boundary-hit", "never-assigned-trip", "two-trips"}})
 }
 
@@ -292,7 +294,16 @@ type parsedFeed struct {
 
 var allStart, allEnd = time.Unix(-(1 << 40), 0), time.Unix(1<<40, 0)
 
-func runJournal(t *sim.T, which string) *sim.Violation {
+// journalGiantOdds: one thorough run in this many is the giant one (VERIF_JOURNAL_GIANT_ODDS overrides it for
+// sensitivity experiments; part of the batch configuration like the seed).
+var journalGiantOdds = func() int {
+	if n, err := strconv.Atoi(os.Getenv("VERIF_JOURNAL_GIANT_ODDS")); err == nil && n > 0 {
+		return n
+	}
+	return 5000
+}()
+
+func runJournal(t *sim.T, which string, tier string) *sim.Violation {
 	cfg := gen.DrawWorldCfg(t)
 	spec := ExtSpec{Kind: 2, TZ: t.Choose(3)}
 	switch t.Choose(5) {
@@ -320,6 +331,21 @@ func runJournal(t *sim.T, which string) *sim.Violation {
 		if cfg.FlapAssign > 1 {
 			cfg.FlapAssign = 1
 		}
+	}
+	// Thorough tier, rarely: more distinct trips in one journal than fixed capacities a build might use (2^14, ...):
+	// twenty to thirty thousand short-lived trains (some never delivered) over a few dozen feeds.
+	if tier == "thorough" && t.Chance(1, journalGiantOdds) {
+		long = true
+		nFeeds = t.Range(40, 60)
+		cfg.Horizon = nFeeds
+		cfg.Trips = 19000 + t.Choose(6000)
+		cfg.ShortLives = true
+		cfg.LongLines = false
+		// plain GTFS-realtime with explicit start times: NYCT ids encode the start time in six digits, which
+		// cannot tell this many trains apart
+		cfg.Nyct, cfg.ExplicitTime = false, true
+		spec.Kind = 0
+		t.Probe("giant-journal")
 	}
 	w := gen.NewWorld(t, cfg)
 	var published [][]byte
@@ -760,6 +786,12 @@ afterWindow:
 	}
 	if tcfg.Drop+tcfg.Dup+tcfg.Reorder > 0 && (t.Faults["transport-drop"]+t.Faults["transport-duplicate"]+t.Faults["transport-reorder"]) > 0 {
 		interesting = true
+	}
+	if len(keyOrder) > 1<<14 {
+		t.Probe("journal-of-more-than-16384-trips")
+	}
+	if len(keyOrder) > t.Extra["max_trips_in_one_journal"] {
+		t.Extra["max_trips_in_one_journal"] = len(keyOrder)
 	}
 	t.Case = sim.HashStrings(caseParts...)
 	t.Nontriv = maxApplied >= 2 && interesting
